@@ -52,7 +52,7 @@ MEM_OPS = ["negative", "abs", "square", "add", "subtract", "multiply", "maximum"
 
 def budget(tier):
     if tier == "quick":
-        return dict(runs=320, minutes=None, chunk=4, chunk_wall=1500, shrink_budget=25, shrink_wall=300.0)
+        return dict(runs=192, minutes=None, chunk=4, chunk_wall=1500, shrink_budget=25, shrink_wall=300.0)
     return dict(runs=None, minutes=20.0, chunk=4, chunk_wall=1800, shrink_budget=40, shrink_wall=600.0)
 
 
